@@ -125,6 +125,9 @@ func main() {
 							for _, big := range []bool{false, true} {
 								for q := 0; q < 3; q++ {
 									for sp := range spamVariants {
+										if q > 0 && sp != 0 && sp != (a+cl+q)%len(spamVariants) {
+											continue // the quota dimension with two header variants per cell, the others with all
+										}
 										cells = append(cells, cell{a, rj, cl, lim, big, q, sp, rng.Intn(3), rng.Chance(20)})
 									}
 								}
